@@ -845,3 +845,24 @@ def oracle(c, impl):
                 return f'unitary inverse transform over one period does not conserve energy: {e_in} -> {e_inv}'
         return None
     return None
+
+
+
+# ------------------------------------------------------------------ WP-T4: translation layer (source -> Gallina)
+# An ADDITIONAL tie (DESIGN 10.3): harness/gen_src.py (suite 'C01') translates the integer bookkeeping of lentil/fourier.py (coordinate origins of _dft2_coords, the arguments dft2 hands to _dft2_matrices, the divisor of idft2)
+# from the CURRENT source text into coq/theories/Gen/FourierSrc.v; Proofs/FourierSrcP.v proves every translated term equal to the model for
+# all integers; Properties/C01Src.v states it.  Policy: a function the translator refuses is only reported; a
+# translated function whose equivalence lemma no longer compiles is compared with the model mirror on sampled points,
+# an exhaustive small box and random points - a found disagreement is a VIOLATION with that witness (replayable: op
+# 'src'), none found is reported as unproved.  The build of C01Src happens here, never in COQ_TARGETS.
+def extra(tier, rng):
+    from .. import gen_src as G
+    return G.run_layer('C01', ID, tier, rng, C)
+
+
+def _wrap_src_replay():
+    from .. import gen_src as G
+    return G.wrap_replay(run_impl, oracle, C)
+
+
+run_impl, oracle = _wrap_src_replay()
